@@ -166,12 +166,10 @@ def fa2 (stakes : List Nat) (k : Nat) : Option (List Nat × List Nat) :=
       some (required stakes k,
         (List.range stakes.length).filter (fun i => roundSeats T k (stakes.getD i 0) * T > stakes.getD i 0 * k))
 
-/-- a committee FA2 may return: `k` members, the required prefix, medium validators at most once
-    more (in validator order), the rest any validator. -/
+/-- a committee FA2 may return (when it could be constructed): `k` members, starting with the
+    required (FA1) samples; medium validators and fallback seats are any validators. -/
 def fa2Valid (stakes : List Nat) (k : Nat) (c : List Nat) : Bool :=
-  match fa2 stakes k with
-  | none => false
-  | some (req, _) => c.length == k && c.take req.length == req && c.all (· < stakes.length)
+  c.length == k && c.take (required stakes k).length == required stakes k && c.all (· < stakes.length)
 
 /-! ## DecayingAcceptanceSampler -/
 
